@@ -185,7 +185,7 @@ Definition gen_transformer_ops (sub:ops) : ops := mkops
 
 (* optimizing_interpreters.py:20 *)
 Definition gen_instopt_instantiate (sub:ops) : pat -> delta -> M pat :=
-  fun v_proved v_delta => bind (lift_opt (gen_basic_instantiate v_proved v_delta)) (fun v_ret => bind (if (negb (is_nil v_delta)) then bind (o_instantiate sub v_proved v_delta) (fun a45 => ret tt) else ret tt) (fun _ => ret v_ret)).
+  fun v_proved v_delta => bind (lift_opt (gen_basic_instantiate v_proved v_delta)) (fun v_ret => bind (if (is_nil v_delta) then ret tt else bind (o_instantiate sub v_proved v_delta) (fun a45 => ret tt)) (fun _ => ret v_ret)).
 
 Definition gen_instopt_ops (sub:ops) : ops := mkops
   (fun v_id => (o_evar sub v_id))
@@ -280,11 +280,11 @@ Definition gen_dsl_publish_proof (v_proved:thunk) : option thunk :=
 
 (* proof.py:200 *)
 Definition gen_execute_gamma_phase (subs:list (obj -> bool -> M unit)) (axs cls:list pat) (prs:list thunk) (v_interpreter:obj) (v_move_into_claim:bool) : M unit :=
-  bind (assert_phase Gamma) (fun _ => bind (iterM (fun v_submodule => (v_submodule v_interpreter false)) subs) (fun _ => bind (iterM (fun v_axiom => bind (obj_pattern v_interpreter v_axiom) (fun a69 => (o_publish_axiom (o_ops v_interpreter) a69))) axs) (fun _ => bind (if v_move_into_claim then into_claim_phase else ret tt) (fun _ => ret tt)))).
+  bind (assert_phase Gamma) (fun _ => bind (iterM (fun v_submodule => (v_submodule v_interpreter false)) subs) (fun _ => bind (iterM (fun v_axiom => bind (obj_pattern v_interpreter v_axiom) (fun a69 => (o_publish_axiom (o_ops v_interpreter) a69))) axs) (fun _ => if v_move_into_claim then into_claim_phase else ret tt))).
 
 (* proof.py:210 *)
 Definition gen_execute_claims_phase (subs:list (obj -> bool -> M unit)) (axs cls:list pat) (prs:list thunk) (v_interpreter:obj) (v_move_into_proof:bool) : M unit :=
-  bind (assert_phase Claim) (fun _ => bind (iterM (fun v_claim => bind (obj_pattern v_interpreter v_claim) (fun a72 => (o_publish_claim (o_ops v_interpreter) a72))) (rev cls)) (fun _ => bind (if v_move_into_proof then into_proof_phase else ret tt) (fun _ => ret tt))).
+  bind (assert_phase Claim) (fun _ => bind (iterM (fun v_claim => bind (obj_pattern v_interpreter v_claim) (fun a72 => (o_publish_claim (o_ops v_interpreter) a72))) (rev cls)) (fun _ => if v_move_into_proof then into_proof_phase else ret tt)).
 
 (* proof.py:218 *)
 Definition gen_execute_proofs_phase (subs:list (obj -> bool -> M unit)) (axs cls:list pat) (prs:list thunk) (v_interpreter:obj) : M unit :=
